@@ -26,7 +26,7 @@ pub struct Ctx {
     pub _scratch: Scratch,
 }
 
-pub const OPS: [&str; 30] = [
+pub const OPS: [&str; 32] = [
     "insert_new",
     "overwrite",
     "delete",
@@ -57,6 +57,8 @@ pub const OPS: [&str; 30] = [
     "knn_evicting",
     "flush_threshold_never_drained",
     "stats_never_drained",
+    "query_semantic",
+    "stats_semantic",
 ];
 
 fn vecf(seed: u64, dim: usize) -> Vec<f32> {
@@ -86,7 +88,12 @@ pub fn make_ctx(variant: u8, rt: Arc<tokio::runtime::Runtime>) -> Option<Ctx> {
         hot_soft: if variant == 1 { 2 } else if variant == 3 { 32 } else { 6 },
         hot_hard: if variant == 1 { 3 } else { 64 },
     };
-    let strategy = Arc::new(LearnedCacheStrategy::new(4, LearnedCachePredictor::new(4).ok()?));
+    // variant 4: learned + semantic admission with a trained predictor (its own stats / cache_state locks)
+    let strategy = if variant == 4 {
+        Arc::new(LearnedCacheStrategy::new_with_semantic(4, crate::c04::trained_predictor(4, &[0, 1, 2, 3]), kyrodb_engine::SemanticAdapter::new()))
+    } else {
+        Arc::new(LearnedCacheStrategy::new(4, LearnedCachePredictor::new(4).ok()?))
+    };
     let shared: Arc<dyn CacheStrategy> = Arc::new(kyrodb_engine::SharedLearnedCacheStrategy::new(strategy.clone()));
     let dir = scratch.sub("data");
     let engine = TieredEngine::new_with_shared_strategy(shared, Arc::new(QueryHashCache::new(4, 0.9)), vec![], vec![], cfg.tiered_config(Some(dir.as_path()))).ok()?;
@@ -141,6 +148,12 @@ pub fn run_op(ctx: &Ctx, op: &str, salt: u64) {
         }
         "query" => {
             let _ = e.query(3, None);
+        }
+        "query_semantic" => {
+            // point reads that carry the query embedding (semantic admission scans its cache state)
+            let q = vecf(3 + salt % 5, d);
+            let _ = e.query(salt % 6, Some(&q));
+            let _ = e.query((salt + 1) % 6, Some(&q));
         }
         "query_miss" => {
             let _ = e.query(77, None);
@@ -198,6 +211,10 @@ pub fn run_op(ctx: &Ctx, op: &str, salt: u64) {
         "snapshot" => {
             let _ = e.cold_tier().create_snapshot();
         }
+        "stats_semantic" => {
+            let _ = e.hsc_lifecycle_stats();
+            let _ = e.stats();
+        }
         "stats" | "stats_never_drained" => {
             let _ = e.stats();
             let _ = e.cache_size();
@@ -219,6 +236,7 @@ fn variant_for(op: &str) -> u8 {
         "insert_at_hard_limit" => 1,
         "insert_index_full" => 2,
         "flush_threshold_never_drained" | "stats_never_drained" => 3,
+        "query_semantic" | "stats_semantic" => 4,
         _ => 0,
     }
 }
@@ -397,7 +415,7 @@ fn soak(args: &Args, rt: &Arc<tokio::runtime::Runtime>, out: &mut Out) {
             continue;
         }
         let mut rng = Rng::derive(args.seed, round as u64, 0x50A4);
-        let Some(ctx) = make_ctx((round % 3) as u8, rt.clone()) else { continue };
+        let Some(ctx) = make_ctx((round % 5) as u8, rt.clone()) else { continue };
         let ctx = Arc::new(ctx);
         sched::set_jitter(300, rng.next_u64());
         let nthreads = 8;
@@ -407,8 +425,10 @@ fn soak(args: &Args, rt: &Arc<tokio::runtime::Runtime>, out: &mut Out) {
                 let c = ctx.clone();
                 let mut r = Rng::derive(args.seed, round as u64, 0x700 + t as u64);
                 Box::new(move || {
+                    // rounds on the semantic-strategy context concentrate on its own operations
+                    const SEMANTIC_OPS: [&str; 8] = ["query_semantic", "query_semantic", "query_semantic", "stats_semantic", "stats_semantic", "query", "overwrite", "insert_new"];
                     for k in 0..120 {
-                        let op = OPS[r.usize_below(OPS.len())];
+                        let op = if round % 5 == 4 { SEMANTIC_OPS[r.usize_below(SEMANTIC_OPS.len())] } else { OPS[r.usize_below(OPS.len())] };
                         sched::set_label(op);
                         run_op(&c, op, k);
                     }
